@@ -5,16 +5,16 @@ import json, os, subprocess, sys
 sys.path.insert(0, '/verif')
 from mokalint.props import PROPERTIES
 sys.path.insert(0, '/verif/tools')
-from _runall import run_all
+from _runall import run_all, REPO
 only = sys.argv[1:]
 base = '/verif/refactors'
 res = {}
-assert subprocess.run(['git', '-C', '/repo', 'diff', '--quiet']).returncode == 0, '/repo dirty'
+assert subprocess.run(['git', '-C', REPO, 'diff', '--quiet']).returncode == 0, '/repo dirty'
 for d in sorted(os.listdir(base)):
     p = os.path.join(base, d, 'patch.diff')
     if not os.path.exists(p): continue
     if only and not any(d.startswith(o) for o in only): continue
-    if subprocess.run(['git', '-C', '/repo', 'apply', p]).returncode != 0:
+    if subprocess.run(['git', '-C', REPO, 'apply', p]).returncode != 0:
         res[d] = 'PATCH-FAILS'; print(d, 'PATCH-FAILS'); continue
     alarms = []
     try:
@@ -23,8 +23,8 @@ for d in sorted(os.listdir(base)):
                 lines = [l.strip() for l in lines_ if l.startswith('  ') or 'CHECK-FAILED' in l]
                 alarms.append((pid, lines[:3]))
     finally:
-        subprocess.run(['git', '-C', '/repo', 'checkout', '--', '.'])
-        subprocess.run(['git', '-C', '/repo', 'clean', '-fdq', 'src'])
+        subprocess.run(['git', '-C', REPO, 'checkout', '--', '.'])
+        subprocess.run(['git', '-C', REPO, 'clean', '-fdq', 'src'])
     res[d] = alarms
     print(d, 'SILENT' if not alarms else 'ALARM')
     for pid, lines in alarms:
